@@ -1,7 +1,7 @@
 (** C01: the top-level theorem: indexData.Search without limits returns exactly the live documents on which the query
     evaluates to true, in document order. *)
 From ZV Require Import Lib.Base Model.SearchCore Proofs.SearchCoreText Proofs.SearchCoreTree Proofs.SearchCoreLoop
-  Proofs.SearchCoreSelect Proofs.SearchCoreBuild Proofs.SearchCoreSimp Proofs.SearchCoreWord.
+  Proofs.SearchCoreSelect Proofs.SearchCoreBuild Proofs.SearchCoreSimp Proofs.SearchCoreWord Proofs.SearchCoreSym.
 From Coq Require Import ZifyBool.
 
 Section Top.
@@ -61,6 +61,17 @@ Proof.
   - simpl in Hb. apply (proj2 (re_ok_list _ _ _ _ _ _)). rewrite forallb_forall in Hb. rewrite Forall_forall in *. auto.
   - simpl in *. auto. - simpl in *. auto. - simpl in *. auto. - simpl in *. auto.
   - destruct q; try contradiction; try exact I.
+    3:{ (* Symbol{Regexp} *)
+      cbn [re_okb] in Hb. cbn [re_ok]. intros k Hk.
+      destruct (distill orbit c freq cs false r) as [[sub isEq] sl].
+      rewrite forallb_forall in Hb. specialize (Hb k ltac:(apply in_seq; lia)). cbv zeta in Hb.
+      apply andb_true_iff in Hb. destruct Hb as [Hs Hb]. cbv zeta. split; [apply secs_okb_ok; exact Hs|].
+      destruct isEq; [|exact I]. destruct sub; try exact I.
+      intros sec Hsec. rewrite forallb_forall in Hb. specialize (Hb sec Hsec).
+      apply andb_true_iff in Hb. destruct Hb as [_ Hb]. apply eqb_prop in Hb. exact Hb. }
+    2:{ (* Symbol{Substring} *)
+      cbn [re_okb] in Hb. cbn [re_ok]. intros k Hk.
+      rewrite forallb_forall in Hb. apply secs_okb_ok. apply Hb. apply in_seq. lia. }
     cbn [re_okb] in Hb. cbn [re_ok]. intros k Hk.
     pose proof (distill_spec re_match tolower orbit c freq Hagree Hfreq cs fn r) as Hd.
     destruct (distill orbit c freq cs fn r) as [[sub isEq] sl]. simpl in Hd. destruct Hd as [D1 _].
